@@ -15,7 +15,8 @@ from . import tlc
 from .pool import chunks, pmap
 from .tlaval import seq, to_tla
 
-CONES = {"orth": [[1, 0], [0, 1]], "pyobt": [[3, 4], [4, 3]], "pyac": [[-3, 4], [4, -3]], "k3": [[1, 0], [0, 1], [1, 1]]}
+CONES = {"orth": [[1, 0], [0, 1]], "pyobt": [[3, 4], [4, 3]], "pyac": [[-3, 4], [4, -3]], "k3": [[1, 0], [0, 1], [1, 1]],
+         "k3b": [[2, -1], [-1, 2], [1, 1]]}     # k3b: facets with DIFFERENT alpha (3/5 for the acute pair, 1 for the diagonal facet)
 EPS2 = [(0, 1), (1, 1), (4, 1), (1, 4)]
 INVS = {"gap": ["GapThm", "CovThm", "CovMono", "CovRefl"], "f1": ["F1Range", "F1True", "F1Mono", "F1Perm"], "hv": ["HVThm"]}
 
@@ -187,7 +188,7 @@ def run(ctx):
         a = st["ans"]
         rows_g.append((cone, [list(v) for v in seq(st["cfg"]["V"])], [list(x) for x in seq(a["gap"])], {e: set(p) for e, p in a["cov"].items()},
                        {k: v for k, v in a["d2"].items()}))
-    f = _run(ctx, "f1", 3, cones if thorough else ["orth", "pyobt"])
+    f = _run(ctx, "f1", 3, cones if thorough else ["orth", "pyobt", "k3b"])
     rows_f = [(cone, [list(v) for v in seq(st["cfg"]["V"])], set(st["ans"]["true"]), list(seq(st["cfg"]["pred"])), dict(st["ans"]["f1"]), dict(st["ans"]["bd"]))
               for cone, st in f]
     h = _run(ctx, "hv", 2, ["orth", "pyobt", "pyac"])
